@@ -39,12 +39,40 @@ def parse_pattern(p):
                 lazy = p[i + 2:i + 3] == "?"
                 toks.append(("star", ch, lazy, 1 if nxt == "+" else 0))
                 i += 3 if lazy else 2
+            elif nxt == "{":
+                # counted repeat X{m}, X{m,}, X{m,n} (optionally lazy)
+                j = p.find("}", i)
+                body = p[i + 2:j] if j != -1 else ""
+                try:
+                    if "," in body:
+                        lo, hi = body.split(",", 1)
+                        lo = int(lo or 0)
+                        hi = int(hi) if hi.strip() else None
+                    else:
+                        lo = hi = int(body)
+                except ValueError:
+                    raise Reject("unparseable-structure")
+                lazy = p[j + 1:j + 2] == "?"
+                if hi is not None and hi == lo:
+                    toks.extend([("lit", ch)] * lo)
+                else:
+                    toks.append(("star", ch, lazy, lo, hi))
+                i = j + (2 if lazy else 1)
             else:
                 toks.append(("lit", ch))
                 i += 1
         else:
             raise Reject("unparseable-structure")
     return toks
+
+
+def run_length(tok, drawn):
+    """Length of a run token given the drawn length: at least its minimum, at
+    most its maximum (X{m,n})."""
+    lo = tok[3] if len(tok) > 3 else 0
+    hi = tok[4] if len(tok) > 4 else None
+    ln = max(drawn, lo)
+    return ln if hi is None else min(ln, hi)
 
 
 def pick(code, filler):
@@ -82,7 +110,7 @@ def instantiate(tokens, filler, star_lengths):
             pos += 1
         else:
             ln = star_lengths[si % len(star_lengths)] if star_lengths else 0
-            ln = max(ln, t[3] if len(t) > 3 else 0)
+            ln = run_length(t, ln)
             si += 1
             for _ in range(ln):
                 f = filler[fi % flen] if filler else "A"
